@@ -64,6 +64,7 @@ pub fn seed_bytes(name: &str) -> Vec<u8> {
                 streams: vec![("bin".into(), vec![9, 8, 7])],
                 summary: enc::default_summary(),
                 extra_pool_strings: vec![],
+                ghost_strings: vec![],
             };
             enc::encode(&db)
         }
@@ -265,6 +266,18 @@ fn structural_menu(s: &SeedInfo, thorough: bool) -> Vec<(String, String, Patch, 
             b.extend_from_slice(&r.to_le_bytes());
         }
         out.push((format!("pool extended by {}", what), "pool-entry:lengths-overflowing-32-bits".into(), put(&s.entries, &pool_raw, b), s.clsid.clone()));
+    }
+    // more entries than two-byte references can address (unused padding)
+    for total in [65535usize, 65536, 65537, 70000] {
+        if total <= n_entries {
+            continue;
+        }
+        let mut b = pool.clone();
+        b.resize(4 + 4 * total, 0);
+        out.push((format!("pool padded with unused entries to {} entries", total), "pool-entry:more-entries-than-references-address".into(), put(&s.entries, &pool_raw, b.clone(), ), s.clsid.clone()));
+        // the same with the reference-width flag flipped
+        b[3] ^= 0x80;
+        out.push((format!("pool padded with unused entries to {} entries, reference width flipped", total), "pool-entry:more-entries-than-references-address+width-flipped".into(), put(&s.entries, &pool_raw, b), s.clsid.clone()));
     }
     // escape as the very last entry (missing continuation)
     {
